@@ -28,6 +28,7 @@ pub struct Cfg {
     /// Time after which connection is closed when no data is.
     ///
     /// Pings are send automatically when this is enabled and no data is transmitted.
+    /// This must be at least one millisecond.
     /// By default this is 60 seconds.
     pub connection_timeout: Option<Duration>,
     /// Maximum number of open ports.
@@ -169,6 +170,13 @@ impl Cfg {
 
         if self.connect_queue == 0 {
             panic!("connect queue length must not be zero");
+        }
+
+        // The timeout is announced to the remote endpoint in whole milliseconds, zero meaning no timeout.
+        if let Some(timeout) = self.connection_timeout
+            && timeout.as_millis() == 0
+        {
+            panic!("connection timeout must be at least one millisecond");
         }
     }
 
